@@ -74,6 +74,11 @@ func newOnce(x *vs.Exec, behaviour string) *onceState {
 	} else if b, ok := strings.CutPrefix(behaviour, "wild6-"); ok {
 		behaviour, tcp = b, "[::]:4568"
 	}
+	// "slow-<proto>": the runner's Start succeeds, but only after more time than StartTimeout
+	slowLaunch := false
+	if b, ok := strings.CutPrefix(behaviour, "slow-"); ok {
+		behaviour, slowLaunch = b, true
+	}
 	switch behaviour {
 	case "netrpc":
 		script = servePlugin(serveOpts{proto: "netrpc", plugins: ps, tcpAddr: tcp})
@@ -90,6 +95,9 @@ func newOnce(x *vs.Exec, behaviour string) *onceState {
 		st.rfErr = true
 	}
 	st.r = newScriptRunner(x, script)
+	if slowLaunch {
+		st.r.startDelay = 5 * time.Second // longer than the client's StartTimeout (4 s)
+	}
 	cfg := &plugin.ClientConfig{
 		HandshakeConfig:  plugin.HandshakeConfig{MagicCookieKey: "VK", MagicCookieValue: "vv", ProtocolVersion: 1},
 		Plugins:          ps,
@@ -304,14 +312,14 @@ func init() {
 			}
 			var out []explore.Params
 			var rec func(prefix []string)
-			behs := []string{"netrpc", "grpc", "badline", "badproto", "silent", "rferr", "re-netrpc", "re-grpc", "tre-netrpc", "tre-grpc", "wild4-netrpc", "wild6-grpc"}
+			behs := []string{"netrpc", "grpc", "badline", "badproto", "silent", "rferr", "re-netrpc", "re-grpc", "tre-netrpc", "tre-grpc", "wild4-netrpc", "wild6-grpc", "slow-netrpc", "slow-grpc"}
 			rec = func(prefix []string) {
 				if len(prefix) > 0 {
 					for _, b := range behs {
 						if b == "silent" && len(prefix) > 3 {
 							continue // each failing Start costs the full timeout; keep the silent plugin to short histories
 						}
-						if (strings.Contains(b, "re-") || strings.HasPrefix(b, "wild")) && len(prefix) > 4 {
+						if (strings.Contains(b, "re-") || strings.HasPrefix(b, "wild") || strings.HasPrefix(b, "slow-")) && len(prefix) > 4 {
 							continue
 						}
 						out = append(out, explore.Params{"beh": b, "seq": strings.Join(prefix, ",")})
